@@ -8,6 +8,7 @@ import json
 m=json.load(open("$d/meta.json"))
 ks=[c for c in m.get("checks_with_change",{}) if c!="$prop"]
 add={"C07-1":["C06","C11"],"C15-1":["C16","C17"],"C06-1":["C11"],"C17-1":["C16"]}.get("$n",[])
+ks=[k for k in ks if k!="$prop"]
 print(" ".join(dict.fromkeys(ks+add)))
 PY
 )
